@@ -52,7 +52,9 @@ priority: {priority}
 vars:
   last: {tag}
   only_{tag}: {tag}
-transformations:
+"""
+    if not P("NOITEMS", 0):  # NOITEMS=1: pipelines that consist of post-processing, finalizers and variables only
+        y += f"""transformations:
   - id: t_{tag}
     type: field_name_suffix
     suffix: _{tag}
@@ -83,7 +85,8 @@ def concat_pipeline(tags):
     d = {"name": "ref", "priority": 0, "vars": {}, "transformations": [], "postprocessing": [], "finalizers": []}
     for t in tags:
         d["vars"].update({"last": t, f"only_{t}": t})
-        d["transformations"].append({"id": f"t_{t}", "type": "field_name_suffix", "suffix": f"_{t}"})
+        if not P("NOITEMS", 0):
+            d["transformations"].append({"id": f"t_{t}", "type": "field_name_suffix", "suffix": f"_{t}"})
         d["postprocessing"].append({"id": f"p_{t}", "type": "embed", "prefix": f"{t}[", "suffix": "]"})
         d["finalizers"].append({"type": "concat", "separator": "|", "prefix": f"{t}{{", "suffix": "}"})
     return ProcessingPipeline.from_dict(d)
@@ -196,7 +199,7 @@ def check_add(variant: int, probe_shape: int) -> bool:
         again = [q for r in probe_rules(nr, nc) for q in ba.convert_rule(r)]  # ba converts further rules with the pipeline it built
         second = bb.convert(SigmaCollection(probe_rules(nr, nc)))
         for t, got_first, got_again in (("x", first, again), ("y", second, None)):
-            d = {"name": "ref", "priority": 0, "vars": {"last": t, f"only_{t}": t}, "transformations": [{"id": f"t_{t}", "type": "field_name_suffix", "suffix": f"_{t}"}],
+            d = {"name": "ref", "priority": 0, "vars": {"last": t, f"only_{t}": t}, "transformations": [] if P("NOITEMS", 0) else [{"id": f"t_{t}", "type": "field_name_suffix", "suffix": f"_{t}"}],
                  "postprocessing": [{"id": f"p_{t}", "type": "embed", "prefix": f"{t}[", "suffix": "]"}, copy.deepcopy(tpl["postprocessing"][0])],
                  "finalizers": [{"type": "concat", "separator": "|", "prefix": f"{t}{{", "suffix": "}"}]}
             ref = ProcessingPipeline.from_dict(copy.deepcopy(d))
@@ -284,7 +287,11 @@ def c14a_concrete(p0: int, p1: int, p2: int, p3: int, spec_csv: str, twice: bool
 
 OBLIGATIONS = [
     Ob("c14a_resolver", {"PMAX": 1}, 900),
+    Ob("c14a_resolver", {"PMAX": 1, "NOITEMS": 1}, 900),
+    Ob("c14b_add", {"NOITEMS": 1}, 300),
+    Ob("c14c_stages", {"NOITEMS": 1}, 300),
     Ob("c14a_resolver", {"PMAX": 2}, 3000, tier="thorough"),
+    Ob("c14a_resolver", {"PMAX": 2, "NOITEMS": 1}, 3000, tier="thorough"),
     Ob("c14b_add", {}, 300),
     Ob("c14c_stages", {}, 300),
 ]
